@@ -320,11 +320,18 @@ func init() {
 				fn := []string{"SkipValue", "SkipValueFast", "Valid"}[(i+n0)%3]
 				cases = append(cases, apiCase("stacklen:"+fn, "StackLen", fn, h, stackOf(n0)))
 			}
+			// the machine's own notion of height against the reference nesting depth of the document (largest number of
+			// containers open at once, computed without the scanner): on a valid document, starting from an empty slice, the
+			// stack slice of SkipValue / Valid ends exactly that long — "a Buffer used on a document at least as deeply
+			// nested" is a Buffer whose slice is at least that long
+			for _, fn := range []string{"SkipValue", "Valid"} {
+				cases = append(cases, specCase("stacklen:depth", "specDepth "+h, runAPI("StackLen", []string{fn, h, "-"})))
+			}
 		}
 		if err := s.Run(cases); err != nil {
 			return "", err
 		}
-		return "the length of the stack slice stored back after SkipValue/SkipValueFast/Valid on initial slices of length 0..40 compared with the model (C19.stack_size); testing.AllocsPerRun around every listed call on successful inputs: floats on every conversion path (incl. the decimal fallback), integers around the bounds, literals and token readers, string tokens with destinations of spare capacity len+0/1/8 (with and without a prefix), UnescapeStringContent with spare len+0/1/5, Valid/SkipValue/SkipValueFast/Handle*Values with a buffer warmed on the same document (nesting up to 3000); expected 0", nil
+		return "the length of the stack slice stored back after SkipValue/SkipValueFast/Valid on initial slices of length 0..40 compared with the model (C19.stack_size) and, on valid documents from an empty slice, with the reference nesting depth (Spec.nestDepth); testing.AllocsPerRun around every listed call on successful inputs: floats on every conversion path (incl. the decimal fallback), integers around the bounds, literals and token readers, string tokens with destinations of spare capacity len+0/1/8 (with and without a prefix), UnescapeStringContent with spare len+0/1/5, Valid/SkipValue/SkipValueFast/Handle*Values with a buffer warmed on the same document (nesting up to 3000); expected 0", nil
 	}
 }
 
